@@ -264,6 +264,9 @@ impl World {
             "compact_bm25" => Box::pin(async move { c.compact_bm25_index(&["txt"]).await }),
             "reconcile" => Box::pin(async move { c.reconcile_storage().await.map(|_| ()) }),
             "delete_collection" => Box::pin(async move { db.delete_collection(COLL).await }),
+            // opening a name whose handle is registered and ACTIVE returns that handle; while a delete is in progress it is refused;
+            // either way nothing under the prefix changes
+            "open_existing" => Box::pin(async move { db.open_collection(COLL.to_string(), async |_| Ok(())).await.map(|_| ()) }),
             "db_flush" => Box::pin(async move { db.flush().await }),
             "db_close" => Box::pin(async move { db.close().await }),
             // creating over a name that still exists (registered, closed-and-unregistered, or being dropped) must be refused
@@ -358,7 +361,7 @@ impl World {
             let modelled = match api.as_str() {
                 "delete_collection" => !self.db.is_read_only() && self.registered,
                 "close_collection" | "db_flush" | "db_close" => self.registered,
-                "open_cb" | "open_cb_fail" | "create_existing" => false,
+                "open_cb" | "open_cb_fail" | "create_existing" | "open_existing" => false,
                 _ => true,
             };
             if api == "create_existing" && self.delete_returned_ok {
@@ -366,6 +369,18 @@ impl World {
                 self.slots[i].fut = None;
                 self.slots[i].result = Some("skipped".into());
                 return Ok((true, false));
+            }
+            if api == "open_existing" {
+                let st = self.coll.state();
+                let live = self.registered && st == CollectionState::Active;
+                let dropping = matches!(st, CollectionState::Deleting) && !self.delete_returned_ok;
+                if !(live || dropping) {
+                    // a retired handle would be replaced by a fresh generation: that is what `reopen` does at the end of the case
+                    self.slots[i].fut = None;
+                    self.slots[i].result = Some("skipped".into());
+                    return Ok((true, false));
+                }
+                self.hit(if live { "open_existing:live" } else { "open_existing:dropping" });
             }
             if api == "db_close" {
                 // its first action is AndaDB::set_read_only(true); the effect is compared with the closer's first poll
@@ -466,6 +481,14 @@ impl World {
                 "create-over-existing",
                 "create_collection on a name that still exists (or is being dropped) succeeded or changed objects under its prefix",
                 "Err, 0 mutations",
+                &format!("result {status}, {muts} mutation(s)"),
+            );
+        }
+        if api == "open_existing" && (muts > 0 || (fin == "ok" && state_before == CollectionState::Deleting)) {
+            self.fail(
+                "open-existing-wrote",
+                "open_collection on a registered ACTIVE handle / on a name being dropped changed objects under the prefix, or opened a name being dropped",
+                "0 mutations; Err while a delete is in progress",
                 &format!("result {status}, {muts} mutation(s)"),
             );
         }
@@ -612,8 +635,10 @@ impl World {
                 continue;
             }
         }
-        let i = self.spawn("create_existing")?;
-        self.run(i).await?;
+        for api in ["create_existing", "open_existing"] {
+            let i = self.spawn(api)?;
+            self.run(i).await?;
+        }
         Ok(())
     }
 
